@@ -4,7 +4,7 @@
    Unget: 0) — so Row = 1 + the line breaks consumed, independently of anything else in the text (repaired code: the
    BeforeString exemption is gone).  That an extra line-break token at a statement boundary does not change what the
    evaluator answers is the evaluator's business and is evaluated end-to-end. *)
-From RT Require Import Model.Lexer Model.Parser Proofs.RowsP.
+From RT Require Import Model.Lexer Model.Parser Proofs.RowsP Proofs.StreamP.
 Open Scope Z_scope.
 
 Theorem C06_row_accounting :
@@ -56,3 +56,14 @@ Proof.
   eexists. split; [vm_compute; reflexivity|]. split; [reflexivity|]. split; [|reflexivity].
   intros x Hx. cbn in Hx. repeat (destruct Hx as [Hx|Hx]; [subst x; discriminate|]). destruct Hx.
 Qed.
+
+(* for every source text at all (no hypothesis on the stream left): the stream read from it is total and its rows
+   start at 1 and move by the line breaks of each token *)
+Theorem C06_rows_every_text : forall is_uspace is_udigit is_uupper is_ulower bc,
+  is_uspace 0%N = false -> is_udigit 0%N = false -> is_uspace ch_dot = false ->
+  (forall c, is_udigit c = true -> ((c =? 120) || (c =? 111) || (c =? 98))%N = false /\ (c =? ch_under)%N = false /\ (c =? ch_dot)%N = false) ->
+  forall s, exists l,
+    read_all is_uspace is_udigit is_uupper is_ulower fixed_lex bc (3 * length s + 4) (3 * length s + 7) (ps_new s) = Some l /\
+    rows_from 1 l /\ (length l <= 3 * length s + 4)%nat.
+Proof. intros sp dg up lo bc H1 H2 H3 H4. exact (read_all_rows_total sp dg up lo bc H1 H2 H3 H4). Qed.
+Print Assumptions C06_rows_every_text.
